@@ -96,6 +96,21 @@ def ipv4(r) -> bytes:
         return ip
 
 
+def odd_ipv4(r) -> bytes:
+    """Dotted quads in every octet spelling the documented pattern accepts (zero padded, hexadecimal, out of range)."""
+    def octet():
+        x = r.random()
+        v = r.choice([r.randrange(256), r.randrange(10), 8, 9, 89, 99, 255, 256, 300, 999])
+        if x < 0.3:
+            return str(v).encode()
+        if x < 0.6:
+            return b"0" * r.randint(1, 3) + str(v).encode()
+        if x < 0.8:
+            return r.choice([b"0x", b"0X"]) + b"0" * r.choice([0, 0, 1, 4]) + (b"%x" % (v & 0xFF))
+        return (b"%o" % v).rjust(4, b"0")
+    return b".".join(octet() for _ in range(4))
+
+
 def email(r) -> bytes:
     alpha = LOWER + DIGITS
     n = r.randint(3, 12)
@@ -261,6 +276,11 @@ def url(r, escapes=True) -> dict:
         _HOST_POOL.append(host)
         if len(_HOST_POOL) > 12:
             _HOST_POOL.pop(0)
+    if hk in ("domain", "ip", "unregistered", "mixedcase") and r.random() < 0.12:
+        # the host text also occurs inside the userinfo (look-alike login names): positions must not be found by text search
+        x = r.random()
+        userinfo = host if x < 0.3 else (b"login." + host if x < 0.6 else user + b":" + host if x < 0.8 else host[1:] + b":" + pw)
+        ui_kind = "host-inside"
     port = r.choice([None] * 5 + [b"80", b"8080", b"", b"65535", b"0", b"443"])
     # path
     pk = r.choice(["none", "slash", "plain", "plain", "dots", "dots", "esc", "many-dotdot", "empty-seg"])
